@@ -178,8 +178,75 @@ def runPT (old : String) (ops hints : String) : String :=
   | some hs, some os => runHOps os (PState.init (old == "1") hs) [[]] ""
   | _, _ => "bad-args"
 
+/-- big trees: shape, streaming lookups, streaming enumeration (the in-memory reader's model is
+    quadratic and is compared on the smaller cases) -/
+def runNTB (maxDepth : Nat) (keys probes : List K) : String :=
+  match write (withIdx keys) with
+  | .error e => "err " ++ e.toString
+  | .ok root =>
+    let shape := match root with
+      | none => "none"
+      | some t => showTree t
+    let s := ",".intercalate (probes.map fun p => showLookup (lookup maxDepth root p))
+    "ok " ++ shape ++ " S:" ++ s ++ " AS:" ++ hashAll (all maxDepth root)
+
+/-- a history on one in-memory tree value (`InMemory.Data` is an exported, mutable map):
+    `s<key>=<v>` set, `d<key>` delete, `c` clear, `a` All(), `l<key>` Lookup, `w` Embed into a
+    fresh file and read back.  Every answer is a function of the current map only. -/
+def runHist (maxDepth : Nat) (parseKey : String → Option K) : List String → List (K × Nat) → List String → String
+  | [], _, acc => "|".intercalate acc.reverse
+  | op :: rest, m, acc =>
+    match op.toList with
+    | 'c' :: _ => runHist maxDepth parseKey rest [] ("." :: acc)
+    | 'q' :: _ => runHist maxDepth parseKey rest m ("." :: acc)
+    | 'x' :: ks =>
+      match (String.ofList ks).splitOn "," with
+      | [kd, rest'] =>
+        match rest'.splitOn "=" with
+        | [ki, vs] =>
+          match parseKey kd, parseKey ki, vs.toNat? with
+          | some kd, some ki, some v => runHist maxDepth parseKey rest (mapSet ki v (mapDel kd m)) ("." :: acc)
+          | _, _, _ => "bad-exchange"
+        | _ => "bad-exchange"
+      | _ => "bad-exchange"
+    | 'a' :: _ => runHist maxDepth parseKey rest m (hashAll (memAll m) :: acc)
+    | 'w' :: _ =>
+      let r := match write (memAll m) with
+        | .error e => "err " ++ e.toString
+        | .ok root =>
+          (match root with
+            | none => "none"
+            | some t => showTree t) ++ " " ++ hashAll (all maxDepth root)
+      runHist maxDepth parseKey rest m (r :: acc)
+    | 'l' :: ks =>
+      match parseKey (String.ofList ks) with
+      | none => "bad-key"
+      | some k => runHist maxDepth parseKey rest m (showLookup (memLookup m k) :: acc)
+    | 'd' :: ks =>
+      match parseKey (String.ofList ks) with
+      | none => "bad-key"
+      | some k => runHist maxDepth parseKey rest (mapDel k m) ("." :: acc)
+    | 's' :: ks =>
+      match (String.ofList ks).splitOn "=" with
+      | [ks', vs] =>
+        match parseKey ks', vs.toNat? with
+        | some k, some v => runHist maxDepth parseKey rest (mapSet k v m) ("." :: acc)
+        | _, _ => "bad-set"
+      | _ => "bad-set"
+    | _ => "bad-hist-op"
+
 def handle (args : List String) : String :=
   match args with
+  | ["nth", "name", ops] => runHist Gen.limits_MaxNameTreeDepth bytesOfHex (ops.splitOn ";") [] []
+  | ["nth", "num", ops] => runHist Gen.limits_MaxNumberTreeDepth String.toInt? (ops.splitOn ";") [] []
+  | ["ntb", "name", keys, probes] =>
+    match parseNameKeys keys, parseNameKeys probes with
+    | some ks, some ps => runNTB Gen.limits_MaxNameTreeDepth ks ps
+    | _, _ => "bad-args"
+  | ["ntb", "num", keys, probes] =>
+    match parseNumKeys keys, parseNumKeys probes with
+    | some ks, some ps => runNTB Gen.limits_MaxNumberTreeDepth ks ps
+    | _, _ => "bad-args"
   | ["nt", "name", keys, probes] =>
     match parseNameKeys keys, parseNameKeys probes with
     | some ks, some ps => runNT Gen.limits_MaxNameTreeDepth ks ps
